@@ -32,6 +32,7 @@ type Profile struct {
 	AllowPush          bool
 	Pins               bool
 	Chans              []string
+	PBaseDeadline      int // probability (out of 100) of a server whose request contexts have a 50ms deadline
 }
 
 // State is the generator's picture of the script so far.
@@ -162,6 +163,9 @@ func ServerScenario(t *rapid.T, p Profile) sim.Scenario {
 		sc.Cfg.NoHooks = true
 	}
 	sc.Cfg.Yield = pick(t, "yield", []int{0, 0, 1, 3})
+	if p.PBaseDeadline > 0 && rapid.IntRange(0, 99).Draw(t, "basedl") < p.PBaseDeadline {
+		sc.Cfg.BaseDeadlineMs = 50
+	}
 	st := &State{IDOf: map[int]string{}, window: map[string]bool{}}
 	n := rapid.IntRange(p.MinSteps, p.MaxSteps).Draw(t, "nsteps")
 	outcomes := p.Outcomes
@@ -172,6 +176,14 @@ func ServerScenario(t *rapid.T, p Profile) sim.Scenario {
 		var step sim.Step
 		roll := rapid.IntRange(0, 99).Draw(t, "op")
 		switch {
+		case sc.Cfg.BaseDeadlineMs > 0 && roll >= 88:
+			// let every context created so far expire (never inside a burst)
+			if len(sc.Steps) > 0 {
+				sc.Steps[len(sc.Steps)-1].Burst = false
+			}
+			st.window = map[string]bool{}
+			sc.Steps = append(sc.Steps, sim.Step{Op: "advance", D: 200})
+			continue
 		case roll < p.PCancel && len(st.LiveIDs) > 0:
 			id := pick(t, "cancelid", st.LiveIDs)
 			if rapid.IntRange(0, 9).Draw(t, "bogus") == 0 {
